@@ -117,3 +117,40 @@ prop("C09", level="other", runtime=True,
      assumptions=["as C03, C05, C08 for the step functions"],
      not_decided=["NSGAII.run, EpsMOEA.run, OMOPSO.run, SMPSO.run as wholes: bounded run-time contracts only",
                   "termination of generate() (partial correctness)"])
+prop("C12", level="other", runtime=True,
+     explanation="Partial. Proved deductively: _van_der_corput returns, for every base >= 2 and length, the radical inverse of each "
+                 "index (recursive spec function radinv; the Halton law per coordinate); construct_df_from_random_matrix is the affine "
+                 "map lb + u*|ub - lb| and keeps unit samples inside the bounds (used by the LHS, Halton and random builders); "
+                 "RandomGenerator.generate returns exactly `number` in-bounds designs (gen_vector, C06); the level lists of "
+                 "UniformGenerator.generate are the k equally spaced levels from the lower to the upper bound. NOT proved (numpy code: "
+                 "lhs/_lhsclassic, the prime sieve, np.stack, itertools.product): the stratification of LHS designs, the choice of "
+                 "prime bases and the burn-in offset of Halton, completeness of the grid are bounded run-time contracts against "
+                 "independent references (exact-rational radical inverse, stratum counting).",
+     assumptions=["A1 real arithmetic; integer // and % are Python floor division", "a numpy 2-D array iterates as its rows",
+                  "recursive spec function radinv is unfolded at the points named by the ghost hints (definitional axiom)"],
+     not_decided=["LHSGenerator.generate, HaltonGenerator.generate as wholes, UniformGenerator's itertools.product: bounded only",
+                  "_primes_from_2_to (numpy sieve): bounded only, through the Halton scenario (first 5 primes)"])
+prop("C10", level="other", runtime=True,
+     explanation="Partial. Proved deductively against an abstract model of sqlite3 (a connection counts the statements executed "
+                 "since its last commit): sync_individual executes exactly the upsert statement `INSERT ... ON CONFLICT(id) DO UPDATE "
+                 "SET individual=excluded.individual` (text read from the real class constant) for the individual's id and current "
+                 "document and commits it before returning, also on the retry path; sync_all executes one upsert per recorded "
+                 "individual, in order, followed by one commit. NOT proved: what json and SQLite do with the documents. The round trip "
+                 "(problem definition, vectors, costs, signed costs, population id, custom data, feature values; finite floats "
+                 "bit-exact, infinities, numpy scalars, individuals inside feature values, re-synchronised ids: last wins, one row per "
+                 "id; store complete after NSGA-II / eps-MOEA / SMPSO runs) is a bounded run-time contract on real SQLite files.",
+     assumptions=["sqlite3: a statement that raises has no effect; commit is atomic; `ON CONFLICT(id) DO UPDATE` replaces the row",
+                  "json.dumps / json.loads and Individual.to_dict / from_dict are not under contract (bounded round trip only)"],
+     not_decided=["read_from_datastore, _create_structure, to_dict, from_dict: bounded only"])
+prop("C11", level="other", runtime=True,
+     explanation="Partial. The crash conditions that the code controls are proved: (1) Job.evaluate hands a design to the store only "
+                 "after its evaluation is complete (state EVALUATED, costs and signed costs set: precondition of the store "
+                 "interface, discharged at the call site on every path); (2) SqliteDataStore.sync_individual returns only after the "
+                 "upsert of that design's current document has been committed, with nothing pending on the connection. Together with "
+                 "SQLite's atomic, journalled commit (assumed, external) every synchronised design is durable and no row is partial. "
+                 "The remaining part of the statement (process death at every moment, file readable afterwards) is a bounded crash "
+                 "exploration: the writer of a small serial NSGA-II run is killed with os._exit at every objective call and before / "
+                 "after every execute and commit, and the file is reopened by a fresh read-mode view.",
+     assumptions=["SQLite commit atomicity and roll-back of uncommitted statements (external)",
+                  "the PRAGMA set-up in conn() is not under contract (external calls): covered only by the crash exploration"],
+     not_decided=["parallel evaluation (C07)", "death at arbitrary wall-clock instants between the enumerated events: bounded exploration only"])
